@@ -145,7 +145,22 @@ impl<'a> ExecutorBuilder<'a> {
                         self.compute_input_column_map(project.input)
                     };
                     let expressions: Vec<&'a Expr<'a>> = project.expressions.to_vec();
-                    let projection = CompiledProjection::new(expressions, effective_column_map);
+                    // a select item that IS one of the GROUP BY expressions is that group column
+                    let direct: Vec<Option<usize>> = match &agg_info {
+                        Some((group_by, _)) => expressions
+                            .iter()
+                            .map(|e| {
+                                if matches!(e, Expr::Column(_)) {
+                                    None
+                                } else {
+                                    group_by.iter().position(|g| **g == **e)
+                                }
+                            })
+                            .collect(),
+                        None => Vec::new(),
+                    };
+                    let projection = CompiledProjection::new(expressions, effective_column_map)
+                        .with_direct(direct);
                     Ok(DynamicExecutor::ProjectExpr(
                         Box::new(child),
                         projection,
